@@ -732,7 +732,7 @@ fn compute(op: Op, old: u64, a: u64, b: u64, width: u8) -> (u64, bool) {
     }
 }
 
-unsafe fn raw_op(addr: *mut u8, width: u8, op: Op, a: u64, b: u64) -> OpResult {
+pub unsafe fn raw_op(addr: *mut u8, width: u8, op: Op, a: u64, b: u64) -> OpResult {
     // outside an execution: plain sequentially consistent operation
     use core::sync::atomic::*;
     macro_rules! doit {
